@@ -436,9 +436,13 @@ def replay_split(inputs):
     for k, q in enumerate(tp):
         if len(q) != edges[k + 1] - edges[k] or not np.allclose(q.positions, tr.trajectory.positions[edges[k]:edges[k + 1]]):
             bad.append(f'trajectory part {k} is not frames [{edges[k]}, {edges[k + 1]})')
-    eq = tr.trajectory.split(n, equal_parts=True)
-    if len({len(q) for q in eq}) != 1:
-        bad.append('equal_parts gives unequal lengths')
+    for flag in (True, 1, np.True_, np.bool_(True)):  # equal parts requested in any truthy form
+        eq = tr.trajectory.split(n, equal_parts=flag)
+        if len({len(q) for q in eq}) != 1:
+            bad.append(f'equal_parts={flag!r} gives unequal lengths')
+    kw = tr.trajectory.split(n_parts=np.int64(n), equal_parts=False)  # numpy integer, keywords
+    if [len(q) for q in kw] != [len(q) for q in tp]:
+        bad.append('split(n_parts=np.int64(n)) differs from split(n)')
     # jumps: sub-additivity (only when no part is empty: known finding otherwise)
     try:
         jumps = tr.jumps()
